@@ -756,6 +756,94 @@ fn cleaner_point(s: &Scenario, k: Option<usize>, kill_a: bool, expect_shape: Opt
 }
 
 // ---------------------------------------------------------------------------------------
+// C07 cleaner leg, threads: two THREADS of one process (`cleaner_mt`) clean up the same dead node of
+// a really killed foreign process; thread A is held before its k-th state-changing libc call
+// inside try_remove_stale_resources() while thread B runs its complete attempt.
+// Returns the names of A's intercepted calls of this run.
+
+fn cleaner_threads_point(s: &Scenario, k: Option<usize>, expect_name: Option<&str>) -> Result<(PointResult, Vec<Sys>), String> {
+    let t0 = Instant::now();
+    let d = new_domain();
+    let mut args = scn_args(s, &d);
+    let mut res = PointResult { scenario: format!("cleaner-threads({})", s.name()), k: k.unwrap_or(usize::MAX), phase: "cleanup-threads".into(), ..Default::default() };
+    if let Err(e) = make_dead_victim(s, &d) {
+        remove_domain(&d);
+        return Err(e);
+    }
+    let final_args = args.clone();
+    args.push(match k {
+        Some(k) => format!("{k}"),
+        None => "-1".to_string(),
+    });
+    let out = match run_untraced("cleaner_mt", &args, Duration::from_secs(30)) {
+        Ok(o) => o,
+        Err(e) => {
+            res.problems.push(format!("c07-cleaner-hang: two cleaner threads: {e}"));
+            String::new()
+        }
+    };
+    let calls: Vec<Sys> = out.lines().filter_map(|l| l.strip_prefix("CALL ")).map(|l| Sys { nr: 0, shape: l.split_whitespace().nth(1).unwrap_or("?").to_string() }).collect();
+    if let Some(k) = k {
+        match calls.get(k) {
+            Some(c) => {
+                res.shape = c.shape.clone();
+                res.ordinal = calls[..=k].iter().filter(|x| x.shape == c.shape).count();
+                if let Some(e) = expect_name {
+                    if e != c.shape {
+                        remove_domain(&d);
+                        return Err(format!("divergence: intercepted call {k} of thread A is {:?}, recorded run had {:?}", c.shape, e));
+                    }
+                }
+            }
+            None => {
+                if !out.is_empty() {
+                    remove_domain(&d);
+                    return Err(format!("divergence: thread A made only {} intercepted calls, stop point {k} not reached", calls.len()));
+                }
+            }
+        }
+    }
+    let result_of = |who: &str| -> Vec<String> {
+        out.lines().find_map(|l| l.strip_prefix(&format!("{who} "))).map(|r| r.split(',').map(|x| x.trim().to_string()).collect()).unwrap_or_default()
+    };
+    let (ra, rb) = (result_of("A"), result_of("B"));
+    res.notes.push(format!("A: {ra:?}; B: {rb:?}"));
+    res.probe = format!("A={} B={}{}", ra.join("+"), rb.join("+"), if out.contains("b_blocked_while_a_was_held=true") { " (B blocked while A was held)" } else { "" });
+    if !out.is_empty() {
+        let oks = ra.iter().chain(rb.iter()).filter(|r| *r == "ok").count();
+        if oks > 1 {
+            res.problems.push(format!("c07-cleanup-not-exclusive: {oks} cleaner threads of one process report a successful cleanup of the same dead node"));
+        }
+        for r in ra.iter().chain(rb.iter()) {
+            let documented = ["ok", "nothing-dead", "AnotherInstanceIsCleaningUpTheNode", "ResourcesAlreadyCleanedUp"];
+            if !documented.contains(&r.as_str()) {
+                res.problems.push(format!("c07-cleaner-refusal-undocumented: a cleaner thread was refused with {r}"));
+            }
+        }
+        if ra.is_empty() || rb.is_empty() || out.contains("panicked") {
+            res.problems.push(format!("c07-cleaner-crashed: output of the two cleaner threads: {}", out.trim().replace('\n', " | ")));
+        }
+    }
+    match run_untraced("crash_cleaner", &final_args, Duration::from_secs(15)) {
+        Ok(o) => {
+            let dead = done_field(&o, "dead=").unwrap_or(99);
+            let alive = done_field(&o, "alive=").unwrap_or(99);
+            if dead != 0 || alive != 0 {
+                res.problems.push(format!("c07-uncollected-after-cleaners: after both cleaner threads finished a further look still finds dead={dead} alive={alive}"));
+            }
+        }
+        Err(e) => res.problems.push(format!("c07-cleaner-hang: final look: {e}")),
+    }
+    res.leftovers = leftovers(&d);
+    if !res.leftovers.is_empty() {
+        res.problems.push(format!("c07-leftover-after-cleaners: {}", res.leftovers.join(", ")));
+    }
+    remove_domain(&d);
+    res.wall_ms = t0.elapsed().as_millis() as u64;
+    Ok((res, calls))
+}
+
+// ---------------------------------------------------------------------------------------
 // C04 atomic-operation leg: the victim (built against the atomics drop-in) kills itself before
 // its N-th atomic operation, for every N: crash points between two shared-memory writes
 
@@ -1134,6 +1222,7 @@ fn rerun(label: &str, k: Option<usize>, prop: &str) -> Result<(PointResult, Vec<
         "cleaner-dies" => cleaner_point(&scn, k, true, None),
         "atomic" => atomic_point(&scn, k.map(|k| k as u64)).map(|(r, _)| (r, Vec::new())),
         "race" => race_point(&scn, k, None),
+        "cleaner-threads" => cleaner_threads_point(&scn, k, None),
         _ => run_point(&scn, k, None, prop),
     }
 }
@@ -1246,6 +1335,27 @@ fn main() {
             }
         }
     }
+    // 1e. C07: cleaner leg, threads of one process
+    let mut thread_work: Vec<(Scenario, usize, String)> = Vec::new();
+    if prop == "C07" {
+        let s = Scenario { pattern: "pubsub".into(), role: "A".into(), mode: "shared".into() };
+        if only.as_ref().map(|o| format!("cleaner-threads({})", s.name()).contains(o.as_str())).unwrap_or(true) {
+            match cleaner_threads_point(&s, None, None) {
+                Ok((r, calls)) => {
+                    rows.push(json!({"scenario": format!("cleaner-threads({})", s.name()), "intercepted_calls_of_thread_A": calls.len(), "baseline_problems": r.problems, "baseline": r.notes}));
+                    if !r.problems.is_empty() {
+                        machinery.push(format!("baseline (sequential) of the cleaner thread leg is not clean: {:?}", r.problems));
+                    }
+                    for (k, c) in calls.iter().enumerate() {
+                        thread_work.push((s.clone(), k, c.shape.clone()));
+                    }
+                    results.push(r);
+                }
+                Err(e) => machinery.push(format!("recording run of the cleaner thread leg failed: {e}")),
+            }
+        }
+    }
+    let thread_work = Arc::new(thread_work);
     // 1d. C06: process leg
     let mut race_work: Vec<(Scenario, usize, String)> = Vec::new();
     let mut race_outcomes: BTreeMap<String, usize> = BTreeMap::new();
@@ -1312,12 +1422,16 @@ fn main() {
     let mut hs = Vec::new();
     for _ in 0..jobs {
         let (next, work, collected, prop, cleaner_work, atomic_work, race_work) = (next.clone(), work.clone(), collected.clone(), prop.clone(), cleaner_work.clone(), atomic_work.clone(), race_work.clone());
+        let thread_work = thread_work.clone();
         hs.push(std::thread::spawn(move || loop {
             let i = next.fetch_add(1, Ordering::SeqCst);
-            if i >= work.len() + cleaner_work.len() + atomic_work.len() + race_work.len() || Instant::now() > deadline {
+            if i >= work.len() + cleaner_work.len() + atomic_work.len() + race_work.len() + thread_work.len() || Instant::now() > deadline {
                 break;
             }
-            let r = if i >= work.len() + cleaner_work.len() + atomic_work.len() {
+            let r = if i >= work.len() + cleaner_work.len() + atomic_work.len() + race_work.len() {
+                let (s, k, name) = &thread_work[i - work.len() - cleaner_work.len() - atomic_work.len() - race_work.len()];
+                cleaner_threads_point(s, Some(*k), Some(name)).map(|(r, _)| r)
+            } else if i >= work.len() + cleaner_work.len() + atomic_work.len() {
                 let (s, k, shape) = &race_work[i - work.len() - cleaner_work.len() - atomic_work.len()];
                 race_point(s, Some(*k), Some(shape)).map(|(r, _)| r)
             } else if i < work.len() {
@@ -1337,7 +1451,7 @@ fn main() {
         let _ = h.join();
     }
     let done = collected.lock().unwrap().len();
-    let complete = done == work.len() + cleaner_work.len() + atomic_work.len() + race_work.len();
+    let complete = done == work.len() + cleaner_work.len() + atomic_work.len() + race_work.len() + thread_work.len();
     for r in collected.lock().unwrap().drain(..) {
         match r {
             Ok(r) => results.push(r),
@@ -1418,6 +1532,7 @@ fn main() {
             "one case = (scenario, visible system call k of the victim): the victim is run under ptrace to the entry of call k, probed while stopped, killed with SIGKILL there; then the survivor detects, cleans up, exercises its ports with a new peer and shuts down, and the domain is scanned for leftovers. Every visible call of every scenario is a kill point (plus the no-crash baseline). A case is distinct by (scenario, call shape, ordinal)."
         },
         "race_points_planned": race_work.len(),
+        "cleaner_thread_points_planned": thread_work.len(),
         "distinct_outcomes": race_outcomes.len(),
         "outcomes": race_outcomes,
         "evaluations": points,
